@@ -80,7 +80,7 @@ WirePage == {
   <<"rd_mailto", "none", "none">>, <<"rd_data_url", "none", "none">>,
   <<"px_idle_close", "none", "none">>, <<"ok_save_headers", "none", "none">>, <<"ok_output_document", "none", "none">>,
   <<"ok_adjust_extension", "none", "none">>, <<"ok_no_directories", "none", "none">>, <<"ok_timestamping", "none", "none">>,
-  <<"ok_no_clobber", "none", "none">>, <<"ok_convert_links", "none", "none">>, <<"ok_page_requisites_convert", "none", "none">>,
+  <<"ok_no_clobber", "none", "none">>, <<"ok_convert_links", "none", "none">>, <<"ok_page_requisites_convert", "none", "none">>, <<"ok_object_codebase_attrname", "none", "none">>,
   <<"au_401_post", "none", "none">>, <<"rd_new_directory", "none", "none">>, <<"ok_new_directory", "none", "none">>,
   <<"ck_garbage", "none", "none">>, <<"ck_huge", "none", "none">>, <<"ck_port_garbage", "none", "none">>,
   <<"ct_garbage", "none", "none">>, <<"cs_unknown", "none", "none">>, <<"cs_nul", "none", "none">>,
@@ -245,7 +245,7 @@ Alphabet(fmt) ==
                         "meta_refresh_empty", "meta_charset_klingon", "style_url_open", "style_attr_url_open",
                         "script_str_soup", "script_open", "comment_open", "cdata_open", "lt", "nul", "amp_soup",
                         "invalid_utf8", "lone_surrogate_utf8", "bom_utf16", "deep_nesting", "quote", "gt", "link_text_ipv6",
-                        "object_codebase_ipv6", "onclick_js", "data_attr", "attr_dup", "tag_nul"}
+                        "object_codebase_ipv6", "object_codebase_attrname", "onclick_js", "data_attr", "attr_dup", "tag_nul"}
     [] fmt = "css"  -> {"url_open", "url_ok", "url_ipv6", "url_huge", "import_unclosed", "import_ok", "esc_surrogate",
                         "esc_big", "esc_eof", "quote", "nul", "invalid_utf8", "bom_utf16", "charset_rule_klingon",
                         "comment_open", "paren_close"}
